@@ -25,6 +25,7 @@
 #include <unistd.h>
 
 #include <atomic>
+#include <chrono>
 #include <map>
 #include <mutex>
 #include <stdexcept>
@@ -571,6 +572,86 @@ static void p_graph_throw(uint64_t seed) {
   quiesce();
 }
 
+// The owner keeps cancelling a parent set while its tasks create and destroy nested sets that registered for the
+// cascade (ParentCascadeCancel::kOn), which is what a nested loop on a pool thread does: the cascade may only
+// touch children that are still registered (heap children: a write into a destroyed child is a heap-use-after-free
+// for the sanitizer build; the payload of the nested tasks is lifetime-tracked as usual)
+static void p_cascade_race(uint64_t seed) {
+  {
+    dispenso::ThreadPool pool(3);
+    dispenso::ConcurrentTaskSet parent(pool);
+    std::atomic<int> stop{0};
+    std::atomic<long> made{0};
+    std::atomic<int> started{0};
+    for (int w = 0; w < 3; ++w)
+      parent.schedule(
+          [&pool, &stop, &made, &started, w, seed]() {
+            started.fetch_add(1);
+            long n = 0;
+            while (!stop.load(std::memory_order_acquire) && n < 20000) {
+              auto* child = new dispenso::ConcurrentTaskSet(pool, dispenso::ParentCascadeCancel::kOn);
+              if ((n + w + (long)seed) % 64 == 0) {
+                LT x((int)n);
+                child->schedule([x]() { (void)x.use(); });
+              }
+              child->wait();
+              delete child;
+              ++n;
+            }
+            made.fetch_add(n);
+          },
+          dispenso::ForceQueuingTag());
+    while (started.load() < 3) // (a cancelled set skips tasks that have not started)
+      std::this_thread::yield();
+    auto t0 = std::chrono::steady_clock::now();
+    while (std::chrono::steady_clock::now() - t0 < std::chrono::milliseconds(300))
+      parent.cancel();
+    stop.store(1, std::memory_order_release);
+    parent.wait();
+    ev("Expect", 31, made.load() > 0 ? 0 : 1);
+  }
+  quiesce();
+}
+
+// several threads build, evaluate and destroy PRIVATE graphs at the same time (they share nothing the API shows;
+// the library's process-wide state - allocator caches, small-buffer pools - is shared behind their backs)
+template <class G>
+static void graphPrivate(uint64_t seed, int t) {
+  for (int round = 0; round < 12; ++round) {
+    G g;
+    LT payload(t * 100 + round);
+    int nsub = 1 + (int)((seed + (uint64_t)(t + round)) % 4);
+    typename G::NodeType* prev = nullptr;
+    for (int s = 0; s < nsub; ++s) {
+      auto& sg = g.addSubgraph();
+      for (int k = 0; k < 2; ++k) {
+        auto& n = sg.addNode([payload]() { (void)payload.use(); });
+        if (prev)
+          n.dependsOn(*prev);
+        prev = &n;
+      }
+    }
+    setAllNodesIncomplete(g);
+    dispenso::SingleThreadExecutor st;
+    st(g);
+  }
+}
+static void p_graph_threads(uint64_t seed) {
+  {
+    std::vector<std::thread> ts;
+    for (int t = 0; t < 3; ++t)
+      ts.emplace_back([seed, t]() {
+        if (t % 2)
+          graphPrivate<dispenso::BiPropGraph>(seed, t);
+        else
+          graphPrivate<dispenso::Graph>(seed, t);
+      });
+    for (auto& th : ts)
+      th.join();
+  }
+  quiesce();
+}
+
 // more subgraphs than the per-type allocator cache holds (kMaxCache = 8): every node allocator is either
 // cached or freed when its subgraph goes away; repeated, with both node types, partially rebuilt
 template <class G>
@@ -702,6 +783,8 @@ int main(int argc, char** argv) {
       {"graph", p_graph},
       {"graph_many", p_graph_many},
       {"graph_throw", p_graph_throw},
+      {"cascade_race", p_cascade_race},
+      {"graph_threads", p_graph_threads},
       {"misc", p_misc},
       {"timed", p_timed},
   };
